@@ -228,7 +228,9 @@ def explore_core(ctx: Ctx, prop: CoreProp) -> Exploration:
         for i in range(0, len(items2), B):
             process(items2[i:i + B], prop.hashseeds[0])
     for hs in prop.hashseeds[1:]:
-        sub = items[: max(len(items) // 4, 20)]
+        # (the first quarter — corpus and random programs — plus the directed programs that ask for it)
+        q = max(len(items) // 4, 20)
+        sub = items[:q] + [it for it in items[q:] if it[1].get("hs")]
         for i in range(0, len(sub), B):
             process(sub[i:i + B], hs)
     exp.coverage = {
